@@ -610,7 +610,7 @@ pub fn spec() -> PropertySpec {
     units.push(PropUnit::new("C02:skzg:perturbed-statement", 200, 2000, 2, |_| sk_case().boxed(), check_sk));
     PropertySpec {
         id: "C02",
-        rule: "Accepted honest transcripts (C01 scenarios) are perturbed at a scenario-chosen position: a false claimed value (the truth +1 / -1 / + random, 0, the negated or doubled truth, or a value that is true for another claim of the same transcript: another polynomial at this point, this polynomial at another point), point replaced by z' constructed so that the perturbed statement is false (some p_j(z') != v_j; constant-only groups are skipped and counted), commitment replaced by an honest commitment to q != p with q(z) != p(z); each in single check and in batch_check (KZG10 check/batch_check, multilinear PST check, streaming verify/verify_multi_points likewise). Combination openings (all eight trait schemes): with honest commitments and the honest open_combinations proof, every queried (combination, point) is given each of up to ~12 structured false values (as above, plus the truth with the combination's constant part removed / added again / removed twice, and the values claimed elsewhere in the statement) - check_combinations must accept none, whether or not it accepts the honest transcript. Correlated false claims (the batch scenarios of C05 restricted to false acceptances: errors that cancel inside a label, across labels, weighted by the replayed opening challenges, or in the accumulated proof elements) for Marlin, Sonic, IPA, PST13, KZG10::batch_check and streaming verify_multi_points. Oracle: verifier outcome is Ok(false), Err or abort. For the code-based schemes a moved point is asserted only when the probability that the honest columns pass by chance is <= 2^-40 (computed from the harness's own encoded matrix); other cases are labelled toy_soundness_not_asserted. Non-trivial: perturbed position shares its batch with other claims (>=2 polynomials at the label, >=2 labels, position > 0) or the scenario carries a degree bound / hiding.",
+        rule: "Accepted honest transcripts (C01 scenarios) are perturbed at a scenario-chosen position: a false claimed value (the truth +1 / -1 / + random, 0, the negated or doubled truth, or a value that is true for another claim of the same transcript: another polynomial at this point, this polynomial at another point), point replaced by z' constructed so that the perturbed statement is false (some p_j(z') != v_j; constant-only groups are skipped and counted), commitment replaced by an honest commitment to q != p with q(z) != p(z); each in single check and in batch_check (KZG10 check/batch_check, multilinear PST check, streaming verify/verify_multi_points likewise). Combination openings (all eight trait schemes; also a commitment replaced by one to q != p, and for the algebraic schemes a point label moved): with honest commitments and the honest open_combinations proof, every queried (combination, point) is given each of up to ~12 structured false values (as above, plus the truth with the combination's constant part removed / added again / removed twice, and the values claimed elsewhere in the statement) - check_combinations must accept none, whether or not it accepts the honest transcript. Correlated false claims (the batch scenarios of C05 restricted to false acceptances: errors that cancel inside a label, across labels, weighted by the replayed opening challenges, or in the accumulated proof elements) for Marlin, Sonic, IPA, PST13, KZG10::batch_check and streaming verify_multi_points. Oracle: verifier outcome is Ok(false), Err or abort. For the code-based schemes a moved point is asserted only when the probability that the honest columns pass by chance is <= 2^-40 (computed from the harness's own encoded matrix); other cases are labelled toy_soundness_not_asserted. Non-trivial: perturbed position shares its batch with other claims (>=2 polynomials at the label, >=2 labels, position > 0) or the scenario carries a degree bound / hiding.",
         assumptions: vec![
             "perturbed statements are false by construction (checked with ark-poly evaluate)",
             "rejection of algebraic perturbations fails with probability <= 2^-120 per case",
